@@ -294,7 +294,7 @@ def check_poll_never_waits_big():
     import threading
     from mido.sockets import SocketPort
     out = []
-    for nbytes in (1024, 2048, 1000):
+    for nbytes in (1024, 2048, 1000, 6000):
         a, b = socket.socketpair()
         port = SocketPort('peer', 1, conn=a)
         try:
@@ -326,6 +326,91 @@ def check_poll_never_waits_big():
             try:
                 port._rfile.close()
                 port._wfile.close()
+            except Exception:
+                pass
+    return out
+
+
+def _close_port(port):
+    for f in (port.close, port._rfile.close, port._wfile.close):
+        try:
+            f()
+        except Exception:
+            pass
+
+
+def check_two_connections_interleaved():
+    """Two independent connections whose messages arrive in interleaved pieces:
+    each port yields exactly its own messages."""
+    from mido.sockets import SocketPort
+    out = []
+    a1, a2 = socket.socketpair()
+    b1, b2 = socket.socketpair()
+    pa, pb = SocketPort('peer', 1, conn=a1), SocketPort('peer', 2, conn=b1)
+    try:
+        got = {'a': [], 'b': []}
+        for who, piece in (('b', [0xc3]), ('a', [0x92, 0x40]), ('b', [0x11]), ('a', [0x5a, 0x82]),
+                           ('b', [0xe3, 1]), ('a', [0x41]), ('b', [2]), ('a', [0])):
+            (a2 if who == 'a' else b2).sendall(bytes(piece))
+            import time
+            time.sleep(0.002)
+            got['a'] += [list(m.bytes()) for m in pa.iter_pending()]
+            got['b'] += [list(m.bytes()) for m in pb.iter_pending()]
+        exp = {'a': [[0x92, 0x40, 0x5a], [0x82, 0x41, 0]], 'b': [[0xc3, 0x11], [0xe3, 1, 2]]}
+        if got != exp:
+            out.append(('connections-interfere', {'kind': 'twoconn'},
+                        'two connections fed in interleaved pieces yielded %r, expected %r' % (got, exp)))
+    except Exception as e:
+        out.append(('connections-interfere/raises', {'kind': 'twoconn'}, repr(e)))
+    finally:
+        _close_port(pa)
+        _close_port(pb)
+        for s_ in (a1, a2, b1, b2):
+            try:
+                s_.close()
+            except Exception:
+                pass
+    return out
+
+
+def check_multi_member_burst(n=100):
+    """A MultiPort over two socket ports; one peer sends n messages and
+    disconnects before anybody looks, the other sends two and stays.  Every
+    message that arrived completely must be handed out."""
+    import time
+    import mido.ports as mp
+    from mido.sockets import SocketPort
+    out = []
+    a1, a2 = socket.socketpair()
+    b1, b2 = socket.socketpair()
+    pa, pb = SocketPort('peer', 1, conn=a1), SocketPort('peer', 2, conn=b1)
+    multi = mp.MultiPort([pa, pb])
+    try:
+        sa = [[0x90, k % 128, 1 + k // 128] for k in range(n)]
+        sb = [[0x91, 7, 7], [0xc1, 9]]
+        a2.sendall(bytes(b for m in sa for b in m) + bytes([0x90, 1]))     # and one incomplete message
+        a2.close()
+        b2.sendall(bytes(b for m in sb for b in m))
+        time.sleep(0.01)
+        got = []
+        for _ in range(5):
+            got += [list(m.bytes()) for m in multi.iter_pending()]
+        ga = [m for m in got if m[0] == 0x90]
+        gb = [m for m in got if m[0] != 0x90]
+        if ga != sa or gb != sb:
+            out.append(('multi-loses-messages-of-closed-member', {'kind': 'multiburst', 'n': n},
+                        'member sent %d messages and disconnected: MultiPort handed out %d of them (other member: %r)' % (
+                            n, len(ga), gb)))
+        if not pa.closed:
+            out.append(('member-not-closed', {'kind': 'multiburst', 'n': n}, 'the disconnected member does not report closed'))
+    except Exception as e:
+        out.append(('multi-burst/raises', {'kind': 'multiburst', 'n': n}, repr(e)))
+    finally:
+        _close_port(pa)
+        _close_port(pb)
+        for s_ in (a1, a2, b1, b2):
+            try:
+                s_.close()
             except Exception:
                 pass
     return out
@@ -389,7 +474,7 @@ def check_server(n_per_client=3):
         import select
         import time
         c3 = connect('127.0.0.1', portno)
-        late = [mido.Message('note_on', channel=5, note=n) for n in (1, 2, 3)]
+        late = [mido.Message('note_on', channel=5, note=n) for n in range(100)]
         for m in late:
             c3.send(m)
         deadline = time.time() + 2
@@ -480,6 +565,12 @@ def replay(case):
     if k == 'server':
         v, skip = check_server()
         return v and v[0][2]
+    if k == 'twoconn':
+        v = check_two_connections_interleaved()
+        return v and v[0][2]
+    if k == 'multiburst':
+        v = check_multi_member_burst(case['n'])
+        return v and v[0][2]
 
 
 def run(ctx):
@@ -527,6 +618,9 @@ CHECK_DEADLOCK FALSE
         ctx.replayed += 1
         if r:
             ctx.violation('socket/' + r[0], {'kind': 'close_recv', 'rseed': rseed, 'policy': policy}, r[1])
+    for key, case, msg in check_two_connections_interleaved() + check_multi_member_burst(100) + check_multi_member_burst(3):
+        ctx.violation('socket/' + key, case, msg)
+    ctx.replayed += 3
     for key, case, msg in check_poll_never_waits_big():
         ctx.violation('socket/' + key, case, msg)
     v, skipped = check_server()
